@@ -1462,6 +1462,180 @@ Section Proofs.
     intros t. apply (H (esize t)). lia.
   Qed.
 
+  (* ---- additional parentheses are harmless wherever `harmless` allows them *)
+  Definition same_kind (cx cx' : ctx) : Prop :=
+    match cx, cx' with COp _ _ _, COp _ _ _ => True | CBase a, CBase b => a = b | _, _ => False end.
+
+  Lemma harmless_sub c t i x : harmless c t -> pchild t i = Some x -> harmless (sub c i) x.
+  Proof. intros H E path y N S. apply (H (i :: path) y); [cbn [node_at]; rewrite E; exact N|exact S]. Qed.
+
+  Lemma all_seq_impl (P Q : nat -> expr -> Prop) : forall l i,
+    (forall j x, nth_error l j = Some x -> P (i + j)%nat x -> Q (i + j)%nat x) -> all_seq P i l -> all_seq Q i l.
+  Proof.
+    induction l as [|y r IH]; intros i H A; [exact I|].
+    rewrite all_seq_cons in *. destruct A as [A1 A2]. split.
+    - specialize (H O y eq_refl). rewrite Nat.add_0_r in H. auto.
+    - apply IH; [|exact A2]. intros j x E. specialize (H (S j) x E). rewrite Nat.add_succ_r in H. exact H.
+  Qed.
+
+  Lemma nth_lsize l j x : nth_error l j = Some x -> (esize x <= lsize l)%nat.
+  Proof. intros H. apply in_lsize. eapply nth_error_In; eauto. Qed.
+
+  Definition Transfer (t : expr) : Prop := forall c c' d cx cx',
+    same_kind cx cx' -> wfp c d cx t -> harmless c' t -> wfp c' d cx' t.
+
+  Ltac fold_lsize :=
+    repeat match goal with
+    | |- context [(fix lsize (l : list expr) {struct l} : nat := match l with [] => O | x :: r => (esize x + lsize r)%nat end) ?a] =>
+        change ((fix lsize (l : list expr) {struct l} : nat := match l with [] => O | x :: r => (esize x + lsize r)%nat end) a) with (lsize a)
+    end.
+
+  Lemma pchild_size t i x : pchild t i = Some x -> (esize x < esize t)%nat.
+  Proof.
+    destruct t; cbn [pchild]; try discriminate.
+    - destruct i; [|discriminate]. intros E; inversion E; subst. cbn. lia.
+    - destruct i as [|[|i]]; try discriminate; intros E; inversion E; subst; cbn; lia.
+    - destruct i as [|[|i]]; try discriminate; intros E; inversion E; subst; cbn; lia.
+    - destruct i; [|discriminate]. intros E; inversion E; subst. cbn. lia.
+    - destruct i as [|[|i]]; try discriminate; intros E; inversion E; subst; cbn; lia.
+    - destruct i as [|[|[|i]]]; try discriminate; intros E.
+      + inversion E; subst. cbn. lia.
+      + subst from. cbn. lia.
+      + subst to. cbn. destruct from; lia.
+    - destruct i as [|j]; intros E.
+      + inversion E; subst. cbn. lia.
+      + pose proof (nth_lsize _ _ _ E). cbn. fold_lsize. lia.
+    - intros E. pose proof (nth_lsize _ _ _ E). cbn. fold_lsize. lia.
+    - intros E. pose proof (nth_lsize _ _ _ E). cbn. fold_lsize. lia.
+    - destruct i; [|discriminate]. intros E; inversion E; subst. cbn. lia.
+    - destruct i as [|[|[|i]]]; try discriminate; intros E; inversion E; subst; cbn; lia.
+    - intros E. pose proof (nth_lsize _ _ _ E). cbn. fold_lsize. lia.
+    - intros E. pose proof (nth_lsize _ _ _ E). cbn. fold_lsize. lia.
+    - destruct i as [|[|i]]; try discriminate; intros E; inversion E; subst; cbn; lia.
+  Qed.
+
+  Lemma transfer_step t : (forall t', (esize t' < esize t)%nat -> Transfer t') -> Transfer t.
+  Proof.
+    intros IH c c' d cx cx' SK W H. unfold Transfer in IH.
+    assert (REC : forall i x cc cc' dd k k', pchild t i = Some x -> same_kind k k' ->
+              (forall path y, node_at x path = Some y -> no_parens_allowed y = true -> cc' path = O) ->
+              wfp cc dd k x -> wfp cc' dd k' x).
+    { intros i x cc cc' dd k k' E SK' HH WW. eapply (IH x); eauto. exact (pchild_size t i x E). }
+    assert (HS : forall i x, pchild t i = Some x ->
+              forall path y, node_at x path = Some y -> no_parens_allowed y = true -> sub c' i path = O).
+    { intros i x E. exact (harmless_sub c' t i x H E). }
+    rewrite wfp_unfold in W |- *.
+    destruct t.
+    - unfold wfb in *. destruct (ctx_pf _); destruct (ctx_pf _); exact W.
+    - (* EIdent *)
+      unfold wfb in *. destruct (ctx_pf _); destruct (ctx_pf _). destruct W as (A & K & NS).
+      split; [exact A|]. split; [exact K|]. intros E. specialize (NS E). subst nilsafe.
+      destruct (Printer.parens g c cx (EIdent a name true)) eqn:P0; cbn [inner_ctx] in NS; [|discriminate NS].
+      subst cx. destruct cx' as [|pns]; cbn in SK; [contradiction|]. subst pns.
+      assert (C0 : c' [] = O) by (apply (H [] (EIdent a name true)); reflexivity).
+      unfold Printer.parens. rewrite C0. reflexivity.
+    - unfold wfb in *. destruct (ctx_pf _); destruct (ctx_pf _); exact W.
+    - unfold wfb in *. destruct (ctx_pf _); destruct (ctx_pf _); exact W.
+    - unfold wfb in *. destruct (ctx_pf _); destruct (ctx_pf _); exact W.
+    - unfold wfb in *. destruct (ctx_pf _); destruct (ctx_pf _); exact W.
+    - unfold wfb in *. destruct (ctx_pf _); destruct (ctx_pf _); exact W.
+    - (* EUnary *)
+      unfold wfb in *. destruct (ctx_pf _); destruct (ctx_pf _). destruct W as (A & U & We).
+      refine (conj A (conj U _)).
+      (eapply (REC 0%nat); [reflexivity| |apply (HS 0%nat); reflexivity|eassumption]; (exact I || reflexivity)).
+    - (* EBinary *)
+      unfold wfb in *. destruct (ctx_pf _); destruct (ctx_pf _). destruct W as (A & U & Wl & Wr).
+      refine (conj A (conj U (conj _ _))).
+      + (eapply (REC 0%nat); [reflexivity| |apply (HS 0%nat); reflexivity|eassumption]; (exact I || reflexivity)).
+      + (eapply (REC 1%nat); [reflexivity| |apply (HS 1%nat); reflexivity|eassumption]; (exact I || reflexivity)).
+    - (* EMatches *)
+      unfold wfb in *. destruct (ctx_pf _); destruct (ctx_pf _). destruct W as (A & U & R1 & R2 & Wl & Wr).
+      refine (conj A (conj U (conj R1 (conj R2 (conj _ _))))).
+      + (eapply (REC 0%nat); [reflexivity| |apply (HS 0%nat); reflexivity|eassumption]; (exact I || reflexivity)).
+      + (eapply (REC 1%nat); [reflexivity| |apply (HS 1%nat); reflexivity|eassumption]; (exact I || reflexivity)).
+    - (* EProperty *)
+      unfold wfb in *. destruct (ctx_pf _); destruct (ctx_pf _). destruct W as (A & We).
+      split; [exact A|]. (eapply (REC 0%nat); [reflexivity| |apply (HS 0%nat); reflexivity|eassumption]; (exact I || reflexivity)).
+    - (* EIndex *)
+      unfold wfb in *. destruct (ctx_pf _); destruct (ctx_pf _). destruct W as (A & We & Wi).
+      refine (conj A (conj _ _)).
+      + (eapply (REC 0%nat); [reflexivity| |apply (HS 0%nat); reflexivity|eassumption]; (exact I || reflexivity)).
+      + (eapply (REC 1%nat); [reflexivity| |apply (HS 1%nat); reflexivity|eassumption]; (exact I || reflexivity)).
+    - (* ESlice *)
+      unfold wfb in *. destruct (ctx_pf _); destruct (ctx_pf _). destruct W as (A & We & Wf & Wt).
+      refine (conj A (conj _ (conj _ _))).
+      + (eapply (REC 0%nat); [reflexivity| |apply (HS 0%nat); reflexivity|eassumption]; (exact I || reflexivity)).
+      + destruct from; [|exact I]. (eapply (REC 1%nat); [reflexivity| |apply (HS 1%nat); reflexivity|eassumption]; (exact I || reflexivity)).
+      + destruct to; [|exact I]. (eapply (REC 2%nat); [reflexivity| |apply (HS 2%nat); reflexivity|eassumption]; (exact I || reflexivity)).
+    - (* EMethod *)
+      unfold wfb in *. destruct (ctx_pf _); destruct (ctx_pf _). destruct W as (A & We & Wa).
+      refine (conj A (conj _ _)).
+      + (eapply (REC 0%nat); [reflexivity| |apply (HS 0%nat); reflexivity|eassumption]; (exact I || reflexivity)).
+      + eapply all_seq_impl; [|exact Wa]. intros j x E Wx. cbn [Nat.add] in *.
+        (eapply (REC (S j)); [exact E| |apply (HS (S j)); exact E|exact Wx]; exact I).
+    - (* EFunction *)
+      unfold wfb in *. destruct (ctx_pf _); destruct (ctx_pf _). destruct W as (A & F & K & B & Wa).
+      refine (conj A (conj F (conj K (conj B _)))).
+      eapply all_seq_impl; [|exact Wa]. intros j x E Wx. cbn [Nat.add] in *.
+      (eapply (REC j); [exact E| |apply (HS j); exact E|exact Wx]; exact I).
+    - (* EBuiltin *)
+      unfold wfb in *. destruct (ctx_pf _); destruct (ctx_pf _). destruct W as (A & B & K & Wa).
+      refine (conj A (conj B (conj K _))).
+      destruct (lookup (string_of_builtin b) (g_builtins g)) as [arity|]; [|exact Wa].
+      destruct (arity =? 1).
+      { destruct args as [|x [|y r]]; try exact Wa.
+        (eapply (REC 0%nat); [reflexivity| |apply (HS 0%nat); reflexivity|eassumption]; (exact I || reflexivity)). }
+      destruct (arity =? 2); [|exact Wa].
+      destruct args as [|x [|y r]]; try exact Wa.
+      destruct y; try exact Wa. destruct r; try exact Wa.
+      destruct Wa as (Wx & AC & C1 & We). refine (conj _ (conj AC (conj _ _))).
+      + (eapply (REC 0%nat); [reflexivity| |apply (HS 0%nat); reflexivity|eassumption]; (exact I || reflexivity)).
+      + apply (H [1%nat] (EClosure a0 y)); reflexivity.
+      + eapply (IH y); [cbn; lia| |exact We|intros path zz N S; apply (H (1%nat :: 0%nat :: path) zz); [exact N|exact S]]; exact I.
+    - (* EClosure *) unfold wfb in *. destruct (ctx_pf _); destruct (ctx_pf _); exact W.
+    - (* EPointer *) unfold wfb in *. destruct (ctx_pf _); destruct (ctx_pf _); exact W.
+    - (* ECond *)
+      unfold wfb in *. destruct (ctx_pf _); destruct (ctx_pf _). destruct W as (A & Wc & Wx & Wy).
+      refine (conj A (conj _ (conj _ _))).
+      + (eapply (REC 0%nat); [reflexivity| |apply (HS 0%nat); reflexivity|eassumption]; (exact I || reflexivity)).
+      + (eapply (REC 1%nat); [reflexivity| |apply (HS 1%nat); reflexivity|eassumption]; (exact I || reflexivity)).
+      + (eapply (REC 2%nat); [reflexivity| |apply (HS 2%nat); reflexivity|eassumption]; (exact I || reflexivity)).
+    - (* EArray *)
+      unfold wfb in *. destruct (ctx_pf _); destruct (ctx_pf _). destruct W as (A & Wa).
+      split; [exact A|].
+      eapply all_seq_impl; [|exact Wa]. intros j x E Wx. cbn [Nat.add] in *.
+      (eapply (REC j); [exact E| |apply (HS j); exact E|exact Wx]; exact I).
+    - (* EMap *)
+      unfold wfb in *. destruct (ctx_pf _); destruct (ctx_pf _). destruct W as (A & Wp).
+      split; [exact A|].
+      eapply all_seq_impl; [|exact Wp]. intros j x E Wx. cbn [Nat.add] in *.
+      destruct x; try exact Wx. destruct Wx as (AP & C0 & Wk & Wv).
+      pose proof (nth_lsize _ _ _ E) as SZ. cbn in SZ.
+      refine (conj AP (conj _ (conj _ _))).
+      + apply (H [j] (EPair a0 x1 x2)); [cbn [node_at pchild]; rewrite E; reflexivity|reflexivity].
+      + eapply (IH x1); [cbn; fold_lsize; lia| |exact Wk|
+          intros path zz N S; apply (H (j :: 0%nat :: path) zz); [cbn [node_at pchild]; rewrite E; exact N|exact S]]; exact I.
+      + eapply (IH x2); [cbn; fold_lsize; lia| |exact Wv|
+          intros path zz N S; apply (H (j :: 1%nat :: path) zz); [cbn [node_at pchild]; rewrite E; exact N|exact S]]; exact I.
+    - (* EPair *) unfold wfb in *. destruct (ctx_pf _); destruct (ctx_pf _); exact W.
+  Qed.
+
+  Lemma transfer_all : forall t, Transfer t.
+  Proof.
+    assert (H : forall m t, (esize t <= m)%nat -> Transfer t).
+    { induction m as [|m IH]; intros t L.
+      - pose proof (esize_pos t). lia.
+      - apply transfer_step. intros t' L'. apply IH. lia. }
+    intros t. apply (H (esize t)). lia.
+  Qed.
+
+  (* the carve-out, made explicit: a tree that is printable with the required parentheses only is
+     printable with ANY additional parentheses except around closures, map pairs and nil-safe
+     identifiers *)
+  Theorem printable_any_parens (c : poracle) (t : expr) :
+    printable g fmt_int fmt_float o no_extra t -> harmless c t -> printable g fmt_int fmt_float o c t.
+  Proof. intros W H. exact (transfer_all t no_extra c O CTOP CTOP I W H). Qed.
+
   (* ---- the round trip *)
   Theorem roundtrip_with_fuel (c : poracle) (t : expr) (n : nat) :
     printable g fmt_int fmt_float o c t ->
@@ -1491,6 +1665,11 @@ Section Proofs.
     printable g fmt_int fmt_float o c1 t -> printable g fmt_int fmt_float o c2 t ->
     parse g o (print_any g fmt_int fmt_float c1 t) = parse g o (print_any g fmt_int fmt_float c2 t).
   Proof. intros W1 W2. rewrite (roundtrip c1 t W1), (roundtrip c2 t W2). reflexivity. Qed.
+
+  Theorem roundtrip_any_parens (c : poracle) (t : expr) :
+    printable g fmt_int fmt_float o no_extra t -> harmless c t ->
+    parse g o (print_any g fmt_int fmt_float c t) = ROk t.
+  Proof. intros W H. apply roundtrip, printable_any_parens; assumption. Qed.
 
   (* operand position, as used by the precedence-climbing argument: at level q the printed operand
      is returned as soon as the follower binds at most f < q *)
